@@ -59,6 +59,8 @@ type target struct {
 	codes    map[common.Hash][]byte
 	accounts []tacct
 	complete bool // every node, leaf and code could be enumerated from src
+	missing  bool // a referenced node or code is not among the serving side's blobs
+	have     map[common.Hash]bool // hashes of the serving side's blobs
 }
 
 func nkey(owner common.Hash, path []byte) string { return string(owner[:]) + "|" + string(path) }
@@ -92,7 +94,7 @@ func hashDB(src [][]byte) ethdb.Database {
 func iterTrie(tr *trie.Trie, owner common.Hash, t *target, leaf func(key, val []byte)) {
 	it, err := tr.NodeIterator(nil)
 	if err != nil {
-		t.complete = false
+		t.complete, t.missing = false, true
 		return
 	}
 	for it.Next(true) {
@@ -104,7 +106,7 @@ func iterTrie(tr *trie.Trie, owner common.Hash, t *target, leaf func(key, val []
 		}
 	}
 	if it.Error() != nil {
-		t.complete = false
+		t.complete, t.missing = false, true
 	}
 }
 
@@ -112,10 +114,14 @@ func iterTrie(tr *trie.Trie, owner common.Hash, t *target, leaf func(key, val []
 func enumerate(root common.Hash, src [][]byte) *target {
 	t := &target{root: root, index: map[string]*tnode{}, codes: map[common.Hash][]byte{}, complete: true}
 	mdb := hashDB(src)
+	t.have = map[common.Hash]bool{}
+	for _, b := range src {
+		t.have[crypto.Keccak256Hash(b)] = true
+	}
 	tdb := triedb.NewDatabase(mdb, triedb.HashDefaults)
 	tr, err := trie.New(trie.StateTrieID(root), tdb)
-	if err != nil {
-		t.complete = false
+	if err != nil || root == (common.Hash{}) { // (trie.New treats the zero hash as the empty trie; the scheduler does not)
+		t.complete, t.missing = false, true
 		return t
 	}
 	iterTrie(tr, common.Hash{}, t, func(key, val []byte) {
@@ -128,7 +134,7 @@ func enumerate(root common.Hash, src [][]byte) *target {
 		if a.root != types.EmptyRootHash {
 			st, err := trie.New(trie.StorageTrieID(root, a.key, a.root), tdb)
 			if err != nil {
-				t.complete = false
+				t.complete, t.missing = false, true
 			} else {
 				iterTrie(st, a.key, t, func(k, v []byte) { a.slots[string(k)] = v })
 			}
@@ -137,7 +143,7 @@ func enumerate(root common.Hash, src [][]byte) *target {
 			if c := rawdb.ReadCode(mdb, a.code); c != nil {
 				t.codes[a.code] = c
 			} else {
-				t.complete = false
+				t.complete, t.missing = false, true
 			}
 		}
 		t.accounts = append(t.accounts, a)
@@ -363,7 +369,9 @@ func (e *engine) missing(k int) (paths []string, hashes []common.Hash, codes []c
 			owner, inner := splitPath([]byte(p))
 			n, ok := e.tgt.index[nkey(owner, inner)]
 			if !ok || n.hash != hashes[i] {
-				e.fail("requested a node outside the target: path %x hash %x", p, hashes[i])
+				if !e.tgt.missing {
+					e.fail("requested a node outside the target: path %x hash %x", p, hashes[i])
+				}
 				continue
 			}
 			if present(e.pre, e.scheme, n, e.tkey) {
@@ -516,8 +524,12 @@ func (e *engine) final() {
 	}
 	fin := dumpMap(e.db)
 	ent := e.tgt.entries(e.scheme)
-	// nothing but target nodes/codes is ever written
+	// nothing but target nodes/codes is ever written (judged only when the target could
+	// be enumerated completely from the serving side's blobs)
 	for k, v := range fin {
+		if e.tgt.missing {
+			break
+		}
 		if pv, ok := e.pre[k]; ok && bytes.Equal(pv, v) {
 			continue
 		}
